@@ -9,7 +9,7 @@ use std::collections::{BTreeMap, BTreeSet};
 
 const RULE: &str = "generated programs with assignments before, between and after line ends (look-ahead stressors), \
 inside functions, tunnels, threads and choice bodies, under generated histories of continue (one line per \
-call), choose, set_variable, observe/unobserve (3 observer objects, shared and distinct variables), reset, \
+call, either blocking or as time-limited slices of 1-9 interpreter steps), choose, set_variable, observe/unobserve (3 observer objects, shared and distinct variables), reset, \
 save/load and flow switches, with an error handler installed. Oracle = polling model: around every continue \
 all globals are read with get_variable before and after; for every registered (observer, variable) pair the \
 number of notifications in that continue is <= 1, exactly 1 if the polled value changed, every notification \
@@ -41,7 +41,13 @@ pub fn exec(case: &J, acc: &mut Acc) -> Result<(), Fail> {
     let src = case["source"].as_str().unwrap_or("").to_string();
     let cfg = cfg_from_json(&case["cfg"]);
     let ops = ops_from_json(&case["ops"]);
-    let assigned = assigned_vars(&src);
+    let mut assigned = assigned_vars(&src);
+    if src.contains("(ref ") {
+        // a variable passed by reference is assigned by the callee: every global may be
+        for g in &meta.globals {
+            assigned.insert(g.clone());
+        }
+    }
     acc.eval();
     let fail = |key: &str, msg: String| Fail::violation(key, msg, case.clone());
     let r = guard(|| -> Result<(bool, bool, bool), Result<Fail, String>> {
@@ -59,13 +65,42 @@ pub fn exec(case: &J, acc: &mut Acc) -> Result<(), Fail> {
         let mut last_continue_unchanged: BTreeSet<String> = BTreeSet::new();
         for (i, op) in ops.iter().enumerate() {
             match op {
-                HostOp::Continue => {
+                HostOp::Continue | HostOp::Slice(_) => {
                     if !h.story.can_continue() {
                         continue;
                     }
                     let before = poll(&h);
                     h.log.borrow_mut().clear();
-                    let r = h.story.cont();
+                    // one outermost continue: a blocking cont(), or time-limited slices of
+                    // `b` interpreter steps each (virtual clock) until the line is complete
+                    let r = if let HostOp::Slice(b) = op {
+                        let mut res = Ok(String::new());
+                        let mut guard_n = 0;
+                        loop {
+                            h.story.verif_set_async_step_budget(Some((*b).max(1)));
+                            let r = h.story.continue_async(1.0e9);
+                            h.story.verif_set_async_step_budget(None);
+                            guard_n += 1;
+                            if let Err(e) = r {
+                                res = Err(e);
+                                break;
+                            }
+                            if !h.story.verif_async_active() {
+                                res = h.story.get_current_text();
+                                break;
+                            }
+                            // nothing may be notified while the continue is unfinished
+                            if h.log.borrow().iter().any(|o| matches!(o, Obs::Notify { .. })) {
+                                return Err(Ok(fail("notified-before-continue-completed", format!("op {i}: an observer was notified while a time-limited continue was still unfinished"))));
+                            }
+                            if guard_n > 5000 {
+                                break;
+                            }
+                        }
+                        res
+                    } else {
+                        h.story.cont()
+                    };
                     let after = poll(&h);
                     let log: Vec<Obs> = h.log.borrow_mut().drain(..).collect();
                     if r.is_err() {
@@ -273,7 +308,15 @@ pub fn run(env: &Env) -> i32 {
                     ops.push(HostOp::Observe { obs: (i + 1) % N_OBSERVERS, var: g.clone() });
                 }
             }
-            ops.extend(decode_history(&gc.hist, &b.meta, &hp));
+            // some continues are done in slices of a few interpreter steps
+            for (k, op) in decode_history(&gc.hist, &b.meta, &hp).into_iter().enumerate() {
+                let v = gc.hist.get(20 + k).copied().unwrap_or(0);
+                if op == HostOp::Continue && v % 3 == 0 {
+                    ops.push(HostOp::Slice(1 + (v as u32 / 3) % 9));
+                } else {
+                    ops.push(op);
+                }
+            }
             let cfg = HostCfg {
                 handler: true,
                 allow_fallbacks: true,
